@@ -89,7 +89,8 @@ def _call(args):
             if r is None:
                 r = {}
             r['_idx'] = idx
-        except Exception:
+        except (Exception, SystemExit):
+            # SystemExit too: blimpy calls sys.exit() on some inputs, which would silently kill the worker
             r = {'_idx': idx, '_error': traceback.format_exc(), '_case': case}
         out.append(r)
     return out
